@@ -10,7 +10,11 @@
               44 / 45 (n :: v :: spec_1..n ++ steps) ...        Histogram(name, Value/DurationBuckets).RecordValue/Duration
               48 (mk :: n :: spec ++ steps) ...                 metric acquired, nothing recorded
               46 steps ("" :: step strings)                     Close of the scope the path denotes
-              47                                                Snapshot()
+              47 steps ("" :: step strings)                     Snapshot() called on the scope the path denotes;
+                                                                the receiver is IGNORED by the model: Snapshot walks the
+                                                                whole registry whatever scope it is called on, so the
+                                                                model's OSnap has no receiver (deriving the receiver only
+                                                                registers empty scopes, which no snapshot shows)
               steps: -1 = SubScope (one string), n >= 0 = Tagged with n pairs (2n strings)
    observed = per snapshot: 50 [counters; gauges; timers; histograms] (entry counts), then the
               entries 51 [v] / 52 [bits] / 53 durations / 54 (kind :: bound :: count :: ...)
